@@ -168,7 +168,7 @@ func judgeOne(tr string, exp expectation, o obs, cfg optsCfg, accept []string, s
 	case success:
 		out = append(out, verdict{"success-on-failure", fmt.Sprintf("%s translator answered a failure with a success (status %d)", tr, o.Status)})
 	case exp.Class == "redirect" && !exp.admits(o.Status, o.Location):
-		if o.Location == "" {
+		if o.Location == "" && exp.admits(o.Status, exp.locationFor(o.Status)) {
 			out = append(out, verdict{"redirect-location-missing", fmt.Sprintf("%s: redirect error answered with %d and no Location", tr, o.Status)})
 		} else {
 			out = append(out, verdict{"status-mismatch", fmt.Sprintf("%s: redirect expected one of %v, got %d %q", tr, exp.Redirects, o.Status, o.Location)})
@@ -331,7 +331,7 @@ func c12Unit(r *core.Run) {
 			items = append(items, item{n, "depth3/unary-exhaustive"})
 		}
 	}
-	nSampled := r.Pick(1500, 40000)
+	nSampled := r.Pick(1500, 10000)
 	for i := 0; i < nSampled; i++ {
 		items = append(items, item{randDepth3(rng), "depth3/sampled"})
 	}
@@ -341,7 +341,7 @@ func c12Unit(r *core.Run) {
 	// translator configurations
 	allDistinct := map[string]int{"authentication": 470, "authorization": 471, "communication": 572, "precondition": 473, "no_rule": 474, "internal": 575}
 	ovs := []map[string]int{{}, allDistinct}
-	for i := 0; i < r.Pick(2, 8); i++ {
+	for i := 0; i < r.Pick(2, 4); i++ {
 		ovs = append(ovs, randOverrides(rng))
 	}
 	var cfgs []optsCfg
@@ -354,7 +354,7 @@ func c12Unit(r *core.Run) {
 
 	// Accept headers
 	accepts := append([][]string{}, fixedAccepts...)
-	for i := 0; i < r.Pick(8, 40); i++ {
+	for i := 0; i < r.Pick(8, 24); i++ {
 		accepts = append(accepts, randAccept(rng))
 	}
 	quietAccepts := [][]string{nil, {"application/json"}, {"*/*"}, {"image/png"}}
